@@ -506,6 +506,61 @@ def _decode_discipline(ctx, run):
     run.floor("decode call sites in the announcing decoders", n, 2)
 
 
+def _single_local_def(f, name):
+    c = f._cache.setdefault("c13_single_def", {})
+    if name not in c:
+        defs = []
+        for bid, i in flow.all_events(f):
+            for lhs, var, op, rhs in flow.stores(f, i):
+                who = var["name"] if var is not None else None
+                if who is None and lhs is not None:
+                    le = f.exprs[ex.skip(f, lhs)]
+                    who = le.get("name") if le["k"] == "ref" and le.get("dk") == "local" else None
+                if who == name and (rhs is not None or var is None):
+                    defs.append((op, rhs))
+        c[name] = defs[0][1] if len(defs) == 1 and defs[0][0] == "=" and defs[0][1] is not None else None
+    return c[name]
+
+
+def _newly_activated(f, node, depth=0):
+    """Does the expression contain `mask & ~old` - the requested event bits that were not enabled before - where `mask` is
+    the function's parameter and `old` is vbi->event_mask or a local holding it?  Locals with a single definition are
+    looked through (`activate = mask & ~vbi->event_mask; if (activate & X)`)."""
+    if depth > 6:
+        return False
+    maskp = f.params[1]["name"]
+
+    def is_old(n, d=0):
+        e = f.exprs[ex.skip(f, n)]
+        while e["k"] == "cast" and e.get("c"):
+            e = f.exprs[ex.skip(f, e["c"][0])]
+        if e["k"] == "mem" and e["member"] == "event_mask":
+            return True
+        if e["k"] == "ref" and e.get("dk") == "local" and d < 3:
+            r = _single_local_def(f, e["name"])
+            return r is not None and is_old(r, d + 1)
+        return False
+    for n in ex.walk(f, node):
+        e = f.exprs[n]
+        if e["k"] == "bin" and e["op"] == "&":
+            kids = [f.exprs[ex.skip(f, c)] for c in e["c"]]
+            for x, y in ((0, 1), (1, 0)):
+                kx = kids[x]
+                while kx["k"] == "cast" and kx.get("c"):
+                    kx = f.exprs[ex.skip(f, kx["c"][0])]
+                if kx["k"] == "un" and kx["op"] == "~" and is_old(kx["c"][0]):
+                    ky = kids[y]
+                    while ky["k"] == "cast" and ky.get("c"):
+                        ky = f.exprs[ex.skip(f, ky["c"][0])]
+                    if ky["k"] == "ref" and ky.get("name") == maskp:
+                        return True
+        if e["k"] == "ref" and e.get("dk") == "local":
+            r = _single_local_def(f, e["name"])
+            if r is not None and _newly_activated(f, r, depth + 1):
+                return True
+    return False
+
+
 def _activation_only(ctx, run):
     f = ctx.prog.need("vbi_event_enable", "src/vbi.c")
     run.touch(f)
@@ -517,12 +572,12 @@ def _activation_only(ctx, run):
             continue
         n += 1
         ats = atoms.atoms_at(f, i)
-        ok = any("activate" in a.L.locals for a in ats)
+        ok = any(a.L.node is not None and _newly_activated(f, a.L.node) for a in ats)
         key = "RF-DOM:vbi_event_enable:%s:on-activation-only" % e["callee"]
         if ok:
             run.holds("RF-DOM", key, "`%s` runs only for newly activated event bits" % ex.pretty(f, i)[:50], ex.loc(f, i))
         else:
-            run.violation("RF-DOM", key, "`%s` is not conditional on the newly activated bits (`activate`): every later handler "
+            run.violation("RF-DOM", key, "`%s` is not conditional on the newly activated bits (`mask & ~vbi->event_mask`): every later handler "
                           "registration or removal, for any event, repeats the reset - the identified station is forgotten, "
                           "announced again, and the next station change no longer drops the cache" % ex.pretty(f, i)[:60],
                           ex.loc(f, i), witness={"dominating": [repr(a) for a in ats]})
